@@ -315,6 +315,12 @@ func genC07(t *core.Tape, tier string) *Scenario {
 		endErr = io.ErrUnexpectedEOF
 	}
 	sc.Notes["c07_"+info.class]++
+	if !p.K.HTTP2 && t.Bool(1, 6, "http10") {
+		// HTTP/1.0: no chunking, no trailers. Whatever the handler answers must
+		// still be well-formed for the protocol the Content-Type selects.
+		p.K.HTTP10 = true
+		sc.Notes["http_1_0"]++
+	}
 	p.Raw = &RawReq{Method: method, Header: canonKeys(hdr), Body: body, EndErr: endErr}
 	p.c07 = info
 	sc.Calls = []*CallPlan{p}
@@ -377,7 +383,7 @@ func checkC07(w *World, st core.Status, r *RunResult) []Violation {
 		ct := p.Raw.Header.Get("Content-Type")
 		tag := info.class + "/" + p.Kind.String()
 		add := func(class, msg string) {
-			vs = append(vs, Violation{Class: "C07/" + class + "/" + tag, Msg: fmt.Sprintf("%s: %s %s, headers %v, %d body bytes %q: %s", p.ID, p.Raw.Method, map[bool]string{true: "HTTP/2", false: "HTTP/1.1"}[p.K.HTTP2], p.Raw.Header, len(p.Raw.Body), clip(p.Raw.Body, 60), msg)})
+			vs = append(vs, Violation{Class: "C07/" + class + "/" + tag, Msg: fmt.Sprintf("%s: %s %s, headers %v, %d body bytes %q: %s", p.ID, p.Raw.Method, httpVersionOf(p), p.Raw.Header, len(p.Raw.Body), clip(p.Raw.Body, 60), msg)})
 		}
 		r.Sig = fmt.Sprintf("%016x", core.Mix(hashBytes([]byte(p.Raw.Method+"|"+hdrString(p.Raw.Header)+"|"+p.Kind.String())), hashBytes(p.Raw.Body)))
 		r.Nontrivial = info.class != "valid"
@@ -405,6 +411,11 @@ func checkC07(w *World, st core.Status, r *RunResult) []Violation {
 			if ex.Status != 405 {
 				add("method-status", fmt.Sprintf("HTTP status %d, want 405", ex.Status))
 			}
+		case selected && p.K.HTTP10 && proto == PGRPC && ex.Status == 505:
+			// gRPC reports every outcome in HTTP trailers and HTTP/1.0 has
+			// none: no well-formed gRPC response exists, a bare 505 says so
+			selected = false
+			r.Probes["grpc_over_http10_refused"]++
 		case !selected:
 			if ex.Status != 415 {
 				add("content-type-status", fmt.Sprintf("HTTP status %d for Content-Type %q, want 415", ex.Status, ct))
@@ -474,4 +485,14 @@ func checkC07(w *World, st core.Status, r *RunResult) []Violation {
 		}
 	}
 	return vs
+}
+
+func httpVersionOf(p *CallPlan) string {
+	switch {
+	case p.K.HTTP2:
+		return "HTTP/2"
+	case p.K.HTTP10:
+		return "HTTP/1.0"
+	}
+	return "HTTP/1.1"
 }
